@@ -119,13 +119,35 @@ class C12(Property):
         a = np.array([1.0, 2.0])
         a2 = np.ones((2, 1))
         a0 = np.array(1.0)
-        for d in (1, 2, 3):
+        for d in (1, 2, 3):  # only to fill the JIT caches; anything that goes wrong here shows up in the judged cases
             for f in self.comp[d]:
-                f(1.0), f(a), f(a2), f(a0)
+                for arg in (1.0, a, a2, a0):
+                    try:
+                        f(arg)
+                    except Exception:  # noqa: BLE001
+                        pass
             for f in self.nd_jit:
-                f(1.0, d), f(a, d), f(a2, d), f(a0, d)
+                for arg in (1.0, a, a2, a0):
+                    try:
+                        f(arg, d)
+                    except Exception:  # noqa: BLE001
+                        pass
 
     def check(self, spec, ctx: Ctx):
+        # The compiled variants are objects made by the library; when they refuse an argument the exception is raised inside
+        # numba's dispatcher (no frame of the library in the traceback), so it is attributed to the library here.
+        try:
+            self._check(spec, ctx)
+        except Exception as exc:  # noqa: BLE001
+            import traceback
+
+            frames = traceback.extract_tb(exc.__traceback__)
+            if any("numba" in (fr.filename or "") for fr in frames) and not ctx.violations:
+                ctx.fail(f"compiled-variant-raises:{type(exc).__name__}", f"a compiled conversion variant raised {type(exc).__name__}: {str(exc)[:200]} (argument dtype {spec.get('dtype', 'float64')}, layout {spec['layout']})")
+            else:
+                raise
+
+    def _check(self, spec, ctx: Ctx):
         S = self.S
         dim = spec["dim"]
         layout = spec["layout"]
